@@ -332,16 +332,19 @@ static void dump()
   if(!any) printf(" -");
 }
 
+static long case_no;
 static void cleanup_objs()
 {
-  // listeners first, then emitters (any order is legal for the library)
-  for(int l = 0; l < MAXL; ++l) if(li[l]) destroy_l(l);
+  // any order is legal for the library: listeners first in even cases, emitters first in odd ones
+  if(case_no % 2 == 0) for(int l = 0; l < MAXL; ++l) if(li[l]) destroy_l(l);
   for(int e = 0; e < MAXE; ++e) if(em[e]) destroy_e(e);
+  for(int l = 0; l < MAXL; ++l) if(li[l]) destroy_l(l);
 }
 
-static void begin(long, vh::Tok& t)
+static void begin(long c, vh::Tok& t)
 {
   cleanup_objs();
+  case_no = c;
   ne = t.n > 2 ? atoi(t.v[2]) : 2; nl = t.n > 3 ? atoi(t.v[3]) : 2; nsg = t.n > 4 ? atoi(t.v[4]) : 1; maxd = t.n > 5 ? atoi(t.v[5]) : 3;
   if(ne > MAXE) ne = MAXE; if(nl > MAXL) nl = MAXL; if(nsg > NSG) nsg = NSG; if(maxd > 60) maxd = 60;
   depth = 0; serial = 0;
